@@ -17,7 +17,8 @@ ASSUMPTIONS = ["shell bounds are >= 2e-9 (relative) away from every lattice poin
 
 def units(tier):
     n = 40 if tier == "quick" else 400
-    return [(i, n) for i in range(len(GR.SETTINGS))]
+    # the settings whose scan tables are the intricate ones (Laue -1, 2/m and the rhombohedral settings) get three times the cases
+    return [(i, n * 3 if (i < 15 or i >= 230) else n) for i in range(len(GR.SETTINGS))]
 
 
 def strategy(tier, unit):
@@ -43,6 +44,8 @@ def check(case, ctx):
         ctx.event("oblique-metric")
     if B.smin > 0:
         ctx.event("smin>0")
+    if B.edge:
+        ctx.event("shell-bound-next-to-a-lattice-value:" + B.edge)
     ctx.event("by-name" if case["byname"] else "by-number")
     np.random.seed(case["npseed"])
     A = mod.genhkl_all(B.cell_arg, B.smin, B.smax, **B.kw)
